@@ -24,7 +24,12 @@ def f32(lo=None, hi=None, **kw):
 
 
 def seeds():
-    return st.integers(0, 2**31 - 1)
+    """Integer seeds.  Every shard offsets them by its own salt: Hypothesis starts each run with the
+    simplest example (0), which would otherwise make every shard begin with the same case."""
+    import os
+
+    salt = int(os.environ.get("VERIF_SHARD_SALT", "0")) % (2**31 - 1)
+    return st.integers(0, 2**31 - 2).map(lambda z: (z + salt) % (2**31 - 1))
 
 
 def gammas():
